@@ -187,10 +187,14 @@ def run_property(pid, tier, seed, t0):
     if errors:
         raise errors[0]
     nd = []
-    if tier == 'thorough':
-        for ub, fns in builds:
-            if ub.spec.native_differential:
-                nd.append(native_differential(ub.spec.name))
+    done = set()
+    for ub, fns in builds:
+        nds = ub.spec.native_differential
+        if nds and (tier == 'thorough' or nds == 'always'):
+            for drv in (ub.spec.native_drivers or [ub.spec.name]):
+                if drv not in done:
+                    done.add(drv)
+                    nd.append(native_differential(drv))
     return judge(pid, tier, seed, t0, builds, results, nd)
 
 
@@ -243,6 +247,9 @@ def judge(pid, tier, seed, t0, builds, results, nd=()):
             cov = R['covers']
             want = [('end', 'h_' + R['function'])] + [(str(k), R['function']) for k in fs.reachable]
             for pt, fn in want:
+                if pt != 'end' and not any(c['point'] == pt and c['function'] == fn for c in cov):
+                    # the function no longer has that many return points (a benign edit): nothing to probe
+                    continue
                 vac_total += 1
                 hit = any(c['point'] == pt and c['function'] == fn and c['reached'] for c in cov)
                 if hit:
@@ -391,7 +398,11 @@ def write_evidence(pid, tier, seed, t0, S, undecided=None):
     cov['samples'] = samples
     cov['trusted_base'] = tb
     cov['functions_under_contract'] = fns
-    cov['bounded_checks'] = S['bounded']
+    cov['bounded_checks'] = list(S['bounded']) + [
+        dict(function='native:replay/%s.cpp --exhaustive' % d.get('unit'), bound='enumerated boundary domain stated at the top of the driver; %s evaluations' % d.get('evaluations'),
+             obligations=d.get('evaluations', 0), failed=d.get('disagreements', 0),
+             status=('holds-on-the-enumerated-domain (native run, not a proof)' if d.get('status') == 'ran' and not d.get('disagreements') and not d.get('sanitizer_fault') else str(d.get('status')) + ('/FAILS' if d.get('disagreements') or d.get('sanitizer_fault') else '')))
+        for d in S.get('nd', [])]
     cov['vacuity'] = dict(reach_points_hit=S['vac'][0], reach_points_required=S['vac'][1],
                           method='second build with assert(0) at every marked return and at the harness end; each must FAIL')
     cov['solver_time_s'] = solver_time
